@@ -12,6 +12,7 @@ import WalrusVerif.Model.Header
 import WalrusVerif.Model.Durable
 import WalrusVerif.Model.Fnv
 import WalrusVerif.Model.LogStore
+import WalrusVerif.Model.Plane
 /-!
 `wdriver`: line-protocol driver.  One request per line on stdin, one reply per line on stdout.
 It runs the very definitions the theorems in `WalrusVerif/Props` are about.
@@ -91,6 +92,8 @@ structure DState where
   /-- the bare WAL wrapper (C21): records are the payload names -/
   wwal : LogStore.Wal String := {}
   wopen : Bool := false
+  /-- the data plane (C22, C23) -/
+  world : Plane.World := {}
 
 def replyStr : Meta.Reply → String
   | .exists_ => "EXISTS" | .created => "CREATED" | .rolled => "ROLLED" | .node => "NODE"
@@ -455,6 +458,127 @@ def handleLS (st : DState) (toks : List String) : Option (DState × String) :=
     | none => some (st, "bad-op")
   | _ => none
 
+/-! ### data plane (C22, C23) -/
+
+namespace PL
+open Plane
+def keyStr (k : Key) : String := "t_" ++ String.ofList k.1 ++ "_s_" ++ toString k.2
+def resStr : Res → String
+  | .ok => "OK"
+  | .val x => s!"VAL x{x}"
+  | .empty => "EMPTY"
+  | .errUnknownTopic t => "ERR unknown topic " ++ String.ofList t
+  | .errNotLeader k remote => (if remote then "ERR forward append failed: " else "ERR ") ++ "NotLeaderForPartition: " ++ keyStr k
+  | .errNoAddr n => s!"ERR unknown addr for node {n}"
+def outStr : StepOut → String
+  | .yield_ l k n =>
+    "yield " ++ l ++ (match k with | some k => " " ++ keyStr k | none => "") ++
+      (match n with | some n => (if l == "leases-refreshed" then s!" n{n}" else s!" {n}") | none => "")
+  | .written k e v =>
+    "yield written " ++ keyStr k ++ (match v with | some (c, l) => s!" e={e} open={c}@{l}" | none => "")
+  | .blocked => "blocked"
+  | .done r => "done " ++ resStr r
+  | .finished => "finished"
+  | .noTask => "no-such-task"
+def parsePayload (s : String) : Option Nat :=
+  match s.toList with
+  | 'x' :: r => (String.ofList r).toNat?
+  | _ => none
+def sortStr (l : List String) : List String := (l.toArray.qsort (· < ·)).toList
+def dump (w : World) : String :=
+  " | ".intercalate (w.nodeIds.map fun n =>
+    let s := w.node n
+    let topics := w.topicOrder.filterMap fun t =>
+      (s.md.topics.get? t).map fun ts =>
+        String.ofList t ++ s!":{ts.currentSegment}@{ts.leaderNode}[" ++
+          ",".intercalate ((List.range (ts.currentSegment - 1)).map fun i =>
+            s!"{i + 1}={(ts.sealedSegments.get? (i + 1)).getD 0}") ++ "]"
+    -- ordered by the key string (a BTreeMap<String, _> on the other side), then rendered
+    let byKey (l : List (String × String)) : List String := ((l.toArray.qsort (fun a b => a.1 < b.1)).toList).map (·.2)
+    let offs := byKey (s.offsets.map fun (k, v) => (keyStr k, keyStr k ++ s!"={v}"))
+    let curs := if s.cursorLocked then [] else byKey (s.cursors.map fun (t, c) => (String.ofList t, String.ofList t ++ s!":{c.1}:{c.2}"))
+    s!"n{n} applied={s.applied} topics=" ++ ";".intercalate topics ++ " offsets=" ++ ",".intercalate offs ++
+      " cursors=" ++ ",".intercalate curs)
+/-- trigger of the open finding `sealedCountStale`: a sealed segment whose recorded count is not the number of
+entries its leader's engine holds for it -/
+def countMismatch (w : World) : Bool :=
+  let s1 := w.node leaderId
+  s1.md.topics.any fun (t, ts) =>
+    (List.range (ts.currentSegment - 1)).any fun i =>
+      let seg := i + 1
+      let ld := (ts.segmentLeaders.get? seg).getD ts.leaderNode
+      let q := ((w.node ld).queues.get? (t, seg)).getD {}
+      (ts.sealedSegments.get? seg).getD 0 != q.entries.length
+/-- extra lines about the step just taken (ghost state), for the attribution of oracle violations -/
+def notes (w w' : World) (tid : Nat) (o : StepOut) : String :=
+  let a := if w'.writes.length > w.writes.length then
+      match w'.writes.getLast? with
+      | some ev => if ev.ownedAtWrite then "" else "#quirk staleLeaseWrite\n"
+      | none => ""
+    else ""
+  let b := match w.tasks.get? tid, o with
+    | some (.getPlanned n _ _ _ _ _), .done .empty =>
+      if (w.node n).applied < w.log.length then "#quirk readerLagsMetadata\n" else ""
+    | _, _ => ""
+  a ++ b
+end PL
+
+def handlePL (st : DState) (toks : List String) : Option (DState × String) :=
+  match toks with
+  | ["pl", "init", n, t] =>
+    match n.toNat?, t.toNat? with
+    | some n, some t => some ({ st with world := Plane.initWorld n t }, "ok")
+    | _, _ => some (st, "bad-op")
+  | ["pl", "topic", name, l] =>
+    match l.toNat? with
+    | some l => some ({ st with world := Plane.createTopic st.world name.toList l }, "ok")
+    | none => some (st, "bad-op")
+  | ["pl", "spawn", tid, "put", n, topic, x] =>
+    match tid.toNat?, n.toNat?, PL.parsePayload x with
+    | some tid, some n, some x =>
+      if st.world.nodeIds.contains n then
+        some ({ st with world := { st.world with tasks := st.world.tasks.insert tid (.putStart n topic.toList x) } }, "ok")
+      else some (st, "bad-node")
+    | _, _, _ => some (st, "bad-op")
+  | ["pl", "spawn", tid, "get", n, topic] =>
+    match tid.toNat?, n.toNat? with
+    | some tid, some n =>
+      if st.world.nodeIds.contains n then
+        some ({ st with world := { st.world with tasks := st.world.tasks.insert tid (.getStart n topic.toList) } }, "ok")
+      else some (st, "bad-node")
+    | _, _ => some (st, "bad-op")
+  | ["pl", "spawn", tid, "monitor", n] =>
+    match tid.toNat?, n.toNat? with
+    | some tid, some n =>
+      if st.world.nodeIds.contains n then
+        some ({ st with world := { st.world with tasks := st.world.tasks.insert tid (.monStart n) } }, "ok")
+      else some (st, "bad-node")
+    | _, _ => some (st, "bad-op")
+  | ["pl", "step", tid] =>
+    match tid.toNat? with
+    | some tid =>
+      let (w', o) := Plane.stepTask st.world tid
+      some ({ st with world := w' }, PL.notes st.world w' tid o ++ PL.outStr o)
+    | none => some (st, "bad-op")
+  | ["pl", "apply", n] =>
+    match n.toNat? with
+    | some n =>
+      let (w', r) := Plane.applyNext st.world n
+      some ({ st with world := w' }, match r with | some i => s!"applied {i}" | none => "none")
+    | none => some (st, "bad-op")
+  | ["pl", "sync", n] =>
+    match n.toNat? with
+    | some n => some ({ st with world := Plane.act st.world (.sync n) }, "ok")
+    | none => some (st, "bad-op")
+  | ["pl", "drain"] =>
+    let (w', outs) := Plane.drain st.world
+    let q := if w'.writes.any (fun ev => !ev.ownedAtWrite) && !(st.world.writes.any (fun ev => !ev.ownedAtWrite))
+      then "#quirk staleLeaseWrite\n" else ""
+    some ({ st with world := w' }, q ++ " | ".intercalate (outs.map fun (tid, o) => s!"t{tid} " ++ PL.outStr o))
+  | ["pl", "dump"] =>
+    some (st, (if PL.countMismatch st.world then "#quirk sealedCountStale\n" else "") ++ PL.dump st.world)
+  | _ => none
+
 def step (st : DState) (line : String) : DState × String :=
   let toks := (line.trimAscii.toString.splitOn " ").filter (· ≠ "")
   match handlePure toks with
@@ -471,7 +595,10 @@ def step (st : DState) (line : String) : DState × String :=
         | none =>
           match handleLS st toks with
           | some r => r
-          | none => (st, "bad-op")
+          | none =>
+            match handlePL st toks with
+            | some r => r
+            | none => (st, "bad-op")
 
 partial def loop (h : IO.FS.Stream) (out : IO.FS.Stream) (st : DState) : IO Unit := do
   let line ← h.getLine
